@@ -67,6 +67,7 @@ type Plan struct {
 	FailOps    []string     `json:"fail_ops,omitempty"`    // identity-keyed: "name|arghash" fails
 	AbortAt    int          `json:"abort_at,omitempty"`    // >0: the callback at seam index AbortAt-1 panics
 	Clock      int64        `json:"clock,omitempty"`       // logical clock read by `now`
+	CtxDone    bool         `json:"ctx_done,omitempty"`    // the request's context.Context (Ctx.Ctx) is already cancelled; the engine must not care
 }
 
 func (p *Plan) Clone() Plan {
@@ -445,6 +446,9 @@ func BuildConfig(c *CfgSpec, host *OpHost, optMask int, setOpts bool) *eval.Conf
 		cc.CompileOptions[eval.ReportEvent] = true
 	case "debug":
 		cc.CompileOptions[eval.Debug] = true
+	case "both":
+		cc.CompileOptions[eval.ReportEvent] = true
+		cc.CompileOptions[eval.Debug] = true
 	}
 	if setOpts {
 		for i, o := range optNames {
@@ -469,6 +473,8 @@ func buildConfigViaAPI(c *CfgSpec, host *OpHost, optMask int, setOpts bool) *eva
 		opts = append(opts, eval.EnableReportEvent)
 	case "debug":
 		opts = append(opts, eval.EnableDebug)
+	case "both":
+		opts = append(opts, eval.EnableDebug, eval.EnableReportEvent)
 	}
 	if setOpts {
 		var on, off []eval.CompileOption
